@@ -1,5 +1,6 @@
 import SieveModel.Props.C06
 import SieveModel.Model.ToList
+import SieveModel.Lemmas.Readback
 /-!
 # C19 — What you put into a filter is what you read back
 
@@ -8,7 +9,12 @@ the code on every run).  Proved: for every non-empty list of items that contain 
 start nor end with a double quote, reading back the rendered list gives exactly the items
 (`list_read_back_exact`); the conditions are necessary (`comma_breaks_read_back`,
 `quote_breaks_read_back` — the known findings KF-C19-1 / KF-C19-2 are these two theorems seen from the
-code's side).  The tuple-building logic of `args_as_tuple` around it is decided by the read-back oracle.
+code's side).  `header_condition_reads_back`: `args_as_tuple` (model `Readback.headerTuple`) of a `header` test that
+holds `quote h`, a tag and `quote k` — whatever else it carries — returns `(h, tag, k)` for every `h`, `k` without
+double quote, backslash and comma; under a `not` the tag comes back as `:not…`
+(`negated_header_condition_reads_back`).  The read-back functions, the loader and the renderer are tied to the code by the
+`factory-roundtrip` correspondence: build → read back → render → parse → load → read back, the real code against the
+composed Lean models, on documented and malformed definitions; the other tuple shapes are decided by it and by the oracle.
 -/
 namespace C19
 /-- `strip('"')` of a quoted value without quotes or backslashes gives the value back -/
@@ -111,5 +117,26 @@ theorem quote_breaks_read_back : toList (render [sb "say \""]) = [sb "say "] := 
 open ToList in
 /-- an empty rendered list reads back as one empty string, not as no item -/
 theorem empty_list_reads_back_as_one_empty_item : toList (sb "[]") = [[]] := by decide
+
+/-- a header condition built from plain strings reads back exactly -/
+theorem header_condition_reads_back (name : Bytes) (args extra : List Arg) (children : List Node) (comments : List Bytes)
+    (h tag k : Bytes) (hh : Readback.plain h) (hk : Readback.plain k)
+    (a1 : assocGet args "header-names" = some (.str "header-names" (Factory.quote h)))
+    (a2 : assocGet args "match-type" = some (.str "match-type" tag))
+    (a3 : assocGet args "key-list" = some (.str "key-list" (Factory.quote k))) :
+    Readback.headerTuple (.mk name args extra children comments) = .ok [.s h, .s tag, .s k] :=
+  Readback.header_condition_reads_back name args extra children comments h tag k hh hk a1 a2 a3
+
+theorem negated_header_condition_reads_back (h tag k : Bytes)
+    (ht : ∀ c, tag.head? = some c → (c &&& 0xC0 == 0x80) = false) :
+    Readback.negated (sb "header") [.s h, .s (58 :: tag), .s k] = .ok [.s h, .s (sb ":not" ++ tag), .s k] :=
+  Readback.negated_header_condition_reads_back h tag k ht
+
+/-- non-vacuity: the premises hold for the tree the factory builds for `("Subject", ":contains", "offer")` -/
+example : Readback.headerTuple (.mk (sb "header")
+      [.str "match-type" (sb ":contains"), .str "header-names" (Factory.quote (sb "Subject")), .str "key-list" (Factory.quote (sb "offer"))] [] [] [])
+    = .ok [.s (sb "Subject"), .s (sb ":contains"), .s (sb "offer")] :=
+  header_condition_reads_back _ _ _ _ _ (sb "Subject") (sb ":contains") (sb "offer")
+    (by unfold Readback.plain; decide) (by unfold Readback.plain; decide) (by simp [assocGet, Arg.key]) (by simp [assocGet, Arg.key]) (by simp [assocGet, Arg.key])
 
 end C19
